@@ -97,9 +97,18 @@ fn wide(s: &str) -> bool {
 }
 
 /// Expected text of a flat inline run under a custom decorator.
-fn expected_inline(nodes: &[Node], spec: &CustomSpec, out: &mut String) {
+fn expected_inline(nodes: &[Node], spec: &CustomSpec, out: &mut String, strike: bool) {
     for n in nodes {
         match n {
+            Node::Word(w) if strike => {
+                // unicode strikeout: U+0336 after every character that has width
+                for c in w.chars() {
+                    out.push(c);
+                    if cw(c) > 0 {
+                        out.push('\u{336}');
+                    }
+                }
+            }
             Node::Word(w) => out.push_str(w),
             Node::Space => out.push(' '),
             Node::El(e) => {
@@ -118,7 +127,8 @@ fn expected_inline(nodes: &[Node], spec: &CustomSpec, out: &mut String) {
                     _ => ("", ""),
                 };
                 out.push_str(a);
-                expected_inline(&e.children, spec, out);
+                let inner_strike = strike || (strike_on(spec) && matches!(e.tag.as_str(), "s" | "del"));
+                expected_inline(&e.children, spec, out, inner_strike);
                 out.push_str(b);
             }
             _ => {}
@@ -126,8 +136,16 @@ fn expected_inline(nodes: &[Node], spec: &CustomSpec, out: &mut String) {
     }
 }
 
+// The strikeout mode of the current case (the spec itself does not carry it).
+thread_local! {
+    static STRIKE_ON: std::cell::Cell<bool> = const { std::cell::Cell::new(false) };
+}
+fn strike_on(_spec: &CustomSpec) -> bool {
+    STRIKE_ON.with(|s| s.get())
+}
+
 /// words separated by single spaces with simple (non-nested-space) markup
-fn gen_affix_doc(rng: &mut Rng) -> Vec<Node> {
+fn gen_affix_doc(rng: &mut Rng, plain_strike: bool) -> Vec<Node> {
     let mut p = Profile::full().no_tables().no_pre();
     p.br = false;
     p.sup = false;
@@ -157,7 +175,8 @@ fn gen_affix_doc(rng: &mut Rng) -> Vec<Node> {
                 }
                 t => {
                     let mut inner = vec![g.word()];
-                    if g.rng.chance(1, 3) {
+                    let may_nest = !(plain_strike && matches!(t, "s" | "del"));
+                    if may_nest && g.rng.chance(1, 3) {
                         // nested markup, no edge spaces
                         let t2 = *g.rng.pick(&["em", "strong", "code"]);
                         if t2 != t {
@@ -234,14 +253,18 @@ fn run_case(seed: u64, idx: u64, _tier: Tier, out: &mut CaseOut) {
             // (2) affixes verbatim
             out.inc("affix_docs");
             let spec = gen_spec(&mut rng);
-            let nodes = gen_affix_doc(&mut rng);
+            // with unicode strikeout on, <s>/<del> hold plain words only (affixes of
+            // elements nested in struck text would be struck too)
+            let strike = rng.chance(1, 2);
+            STRIKE_ON.with(|s| s.set(strike));
+            let nodes = gen_affix_doc(&mut rng, strike);
             let mut expected = String::new();
-            expected_inline(&nodes, &spec, &mut expected);
+            expected_inline(&nodes, &spec, &mut expected, false);
             let doc = vec![El::with("p", nodes).node()];
             let input = ast::serialize(&doc, &mut Fmt::canonical());
             let mut cfg = Cfg::new(Deco::Custom(spec.clone()));
             cfg.footnotes = Some(false);
-            cfg.strikeout = Some(false);
+            cfg.strikeout = Some(strike);
             let w = 1000;
             let o = render_string(&cfg, &input, w);
             out.evals += 1;
